@@ -61,6 +61,35 @@ def k3_child_derivation(chk, F, A, tag):
     chk.ob("K3.two-outputs-of-one-derivation-first-incrementing", f.key + tag, order_ok,
            "%s does not draw the child seed (incrementing) and then the identifier from one derivation object (calls %d, increment flags %s, objects %d)" % (f.path, len(derive_calls), incs, len(owners)),
            where=f.loc())
+    # post-increment: inside the derivation routine the index field is encoded into the block *before* it is advanced
+    # (hash-sigs: `put_bigendian(buffer + PRNG_J, j, 2); if (increment_j) j += 1`); a pre-increment shifts every child seed to index + 1
+    for dp in sorted({core.strip_generics(core.callee_path(t) or "") for b, t in derive_calls}):
+        cands = [g for q, g in F.fns.items() if core.strip_generics(q) == dp or core.strip_generics(q).endswith("::" + dp.split("::", 1)[-1])]
+        for g in cands[:1]:
+            gex = expr.Expr(F, g)
+            writes = {}
+            for b, i, st in g.iter_stmts():
+                if st["k"] != "assign" or g.blocks[b]["cleanup"]:
+                    continue
+                pr = st["place"]["proj"]
+                if pr and pr[-1]["k"] == "field" and pr[-1].get("name"):
+                    writes.setdefault(pr[-1]["name"], []).append(b)
+            enc = []
+            for b, t in g.calls():
+                if g.blocks[b]["cleanup"] or not (core.callee_path(t) or "").endswith("to_be_bytes") or not t["args"]:
+                    continue
+                e = gex.of_operand(t["args"][0])
+                for x in expr.walk(e):
+                    if x[0] == "field" and x[2] in writes:
+                        enc.append((b, x[2]))
+            chk.count("derivation_index_encodings", len(enc))
+            chk.ob("K3.index-field-encoded", g.key + tag, bool(enc) or not writes,
+                   "%s advances %s but no big-endian encoding of that field was found" % (g.path, sorted(writes)), where=g.loc())
+            for b, name in enc:
+                late = [bw for bw in writes[name] if b in g.reachable_blocks(bw)]
+                chk.ob("K3.index-encoded-before-it-is-advanced", "%s|%s%s" % (g.key, name, tag), not late,
+                       "in %s the field `%s` is written before it is encoded into the derivation block: the block carries the advanced index "
+                       "(hash-sigs encodes j first and increments afterwards), every child seed moves to index + 1" % (g.path, name), where=g.loc(b))
     # index constant and leaf set on that object
     sets = [(core.strip_generics(core.callee_path(t) or "").rsplit("::", 1)[-1], t) for b, t in f.calls() if not f.blocks[b]["cleanup"]]
     idx = [core.op_const_val(t["args"][1]) for nm, t in sets if nm == "set_child_seed" and len(t["args"]) == 2]
